@@ -36,6 +36,24 @@ func RunDSL() error {
 			// Let's cross that bridge once we get there
 			return fmt.Errorf("too many generated roots, infinite loop?")
 		}
+		// Pick up the roots registered by the DSL that just ran so that they
+		// get executed (last) as well.
+		all, err := Context.Roots()
+		if err != nil {
+			return err
+		}
+		for _, r := range all {
+			known := false
+			for _, o := range roots {
+				if o.EvalName() == r.EvalName() {
+					known = true
+					break
+				}
+			}
+			if !known {
+				roots = append(roots, r)
+			}
+		}
 	}
 	if Context.Errors != nil {
 		return Context.Errors
